@@ -39,7 +39,7 @@ def main(argv=None):
                 rp = json.load(f)
             lib.MODE = 'int' if '#int' in str(rp.get('family') or '') else 'float'
             fam_ = str(rp.get('family') or '')
-            lib.FORM = 'B' if '#formB' in fam_ else ('C' if '#formC' in fam_ else 'A')
+            lib.FORM = next((f for f in 'BCD' if '#form' + f in fam_), 'A')
             try:
                 viols = mod.replay(rp['family'], rp['scene'])
             except lib.ConstructionFailed as cf:
